@@ -85,8 +85,8 @@ META = {
             'full run) then 3-8 ops: runs (selection, -a, -c, failing actions), forget in 12 argument forms (names, -s, '
             '--all, --disable-default, none, unknown names), ignore, reset-dep (named / all), edits / touches / '
             'deletions of sources and targets, each command mostly followed by a run; 10% of md5 cases change the '
-            'checker once; 12% mutations of corpus seeds; exhaustive tier: every command word of length <= 1 (quick; '
-            'length 2 sampled) / <= 2 (thorough; length 3 sampled) over a 14-letter alphabet on 5 fixed task sets; '
+            'checker once, 12% do so while a file_dep is missing and reset-dep is issued (after an ignore in half of them); 12% mutations of corpus seeds; exhaustive tier: every command word of length <= 1 (quick; '
+            'length 2 sampled) / <= 2 (thorough; length 3 sampled) over a 15-letter alphabet on 5 fixed task sets; '
             'non-trivial = a command changed the DB and a later run both skipped/ignored and executed; distinct = '
             'distinct rendered case',
     'assumptions': ['a file\'s content never changes while its mtime stays the same (MD5Checker\'s premise); mtimes are '
@@ -629,7 +629,7 @@ def monitor(case, obs, steps, r):
                 if per['missing']:
                     _cnt(r, 'mon:reset-missing-dep')
                     if post[t] != pre[t]:
-                        viol(i, 'reset-missing', '%s has a missing file_dep but something was recorded: %s -> %s'
+                        viol(i, 'reset-missing', '%s has a missing file_dep: nothing may be recorded for it (nor erased), but its record changed: %s -> %s'
                              % (names[t], pre[t], post[t]))
                     continue
                 _cnt(r, 'mon:reset-present')
@@ -1072,7 +1072,26 @@ def gen_case(rng):
                 ops.append(['touch', p])
             else:
                 ops.append(['delete', p])
-    if case['checker'] == 'md5' and rng.random() < 0.10:
+    if case['checker'] == 'md5' and rng.random() < 0.12:
+        # the documented use of reset-dep, gone wrong half-way: the configured checker changes while a file
+        # dependency of a task with saved state (and perhaps an ignore mark) is missing; reset-dep must record nothing
+        # for that task -- and must not lose what is recorded; then the file comes back and a run follows
+        with_dep = [i for i, t in enumerate(tasks) if any(p < nsrc for p in t['deps'])]
+        if with_dep:
+            t = rng.choice(with_dep)
+            p = rng.choice([q for q in tasks[t]['deps'] if q < nsrc])
+            if rng.random() < 0.5:
+                ops.append(['ignore', [t]])
+            ops.append(['checker', 'timestamp'])
+            ops.append(['delete', p])
+            ops.append(['reset', [] if rng.random() < 0.5 else [t]])
+            if rng.random() < 0.7:
+                cid += 7
+                ops.append(['edit', p, cid % 190])
+            if rng.random() < 0.5:
+                ops.append(['touch', p])
+            ops.append(gen_run(rng, tasks, 0.05))
+    elif case['checker'] == 'md5' and rng.random() < 0.10:
         # the configured checker changes once (md5 -> timestamp: the direction in which no checker meets a state it
         # cannot read, findings/pending/C03-md5-on-timestamp-state.md)
         first_run = next((k for k, o in enumerate(ops) if o[0] == 'run'), len(ops) - 1)
@@ -1141,6 +1160,7 @@ SMALL_CMDS = [
     ['delete', 0],
     ['edit', 0, 77],
     ['runfail', None],
+    ['checker', 'timestamp'],
 ]
 
 
@@ -1167,7 +1187,7 @@ def exhaustive_cases(maxlen, rng, sample=None):
                                             'plan': {str(first): {'ok': False, 'writes': [], 'res': None}}}])
                     else:
                         ops.append(json.loads(json.dumps(cmd)))
-                    if cmd[0] not in ('delete', 'edit', 'runfail'):
+                    if cmd[0] not in ('delete', 'edit', 'runfail', 'checker'):
                         ops.append(['run', {'sel': list(range(n)), 'always': False, 'cont': True, 'plan': {}}])
                 ops.append(['run', {'sel': None, 'always': False, 'cont': True, 'plan': {}}])
                 cases.append({'backend': statuslib.BACKENDS[k % 3], 'checker': statuslib.CHECKERS[(k // 3) % 2],
